@@ -173,6 +173,76 @@ def handleOp (op : String) (f : List String) : Verdict :=
     | _, _ => bad "C07.resolve fields"
   | _, _ => bad ("C07: unknown op " ++ op)
 
+/- ## sequences on one object (`C07.seq`): the last step is judged, on the tree and the subtree sizes the
+   earlier steps left behind -/
+
+def parseStored (s : String) : Option (List (Int × Nat × Nat)) :=
+  (splitTerm "," s).mapM (fun x => match x.splitOn ":" with
+    | [a, b, c] => match a.toInt?, b.toNat?, c.toNat? with
+      | some i, some l, some r => some (i, l, r)
+      | _, _, _ => none
+    | _ => none)
+
+/-- operations after which the subtree sizes on the branches describe the tree: `ReinitIndexes`, and
+    everything that ends with `ReinitInternalIndexes` (RemoveEdges hence the collapses, Resolve, Reroot) -/
+def leavesIndexes (step : String) : Bool :=
+  match (step.splitOn ":").head? with
+  | some k => k == "reinit" || k == "resolve" || k == "len" || k == "sup" || k == "reroot"
+  | none => false
+
+def handleSeq (f : List String) : Verdict :=
+  match f with
+  | [stepss, _base, before, storeds, drawss, outcome, after] =>
+    let steps := stepss.splitOn ";"
+    match steps.getLast?, T.undump before, parseStored storeds, parseNatList drawss with
+    | some lastStep, some b, some stored, some draws =>
+      let earlier := steps.dropLast
+      let indexed := earlier.any leavesIndexes
+      let fresh := b.splits.all fun s => storedSizes stored s.e.id == (b.tipNames.length - s.below.length, s.below.length)
+      let tags0 := ["seq", "seq-len-" ++ toString steps.length] ++ tagIf indexed "indexed" ++ tagIf (!fresh) "stale-sizes" ++
+        tagIf (earlier.any fun x => x.startsWith "resolve") "after-resolve" ++
+        tagIf (earlier.any fun x => x.startsWith "reroot") "after-reroot" ++
+        tagIf (earlier.any fun x => x.startsWith "len" || x.startsWith "sup" || x.startsWith "depth") "after-collapse"
+      if !b.uniqueTips || !(uniqueIds b) then ⟨.pass, "skip-dup" :: tags0, ""⟩ else
+      -- the earlier operations promise to leave the subtree sizes of the tree as it is
+      if indexed && !fresh then ⟨.oracle, tags0, "stale subtree sizes (ntaxleft/ntaxright) left on the branches by the earlier steps " ++ ";".intercalate earlier⟩ else
+      match lastStep.splitOn ":" with
+      | ["resolve", _seed] =>
+        if outcome != "ok" then ⟨.oracle, tags0, "outcome " ++ outcome⟩ else
+        match T.undump after with
+        | none => bad "C07.seq after dump"
+        | some a =>
+          let tags := treeTags b ++ tags0 ++ ["seq-resolve"] ++ tagIf (nInner a > nInner b) "nontrivial"
+          if !(resolveOK b a) then ⟨.oracle, tags, resolveWhy b a⟩
+          else match resolve b draws with
+            | none => ⟨.tie, tags, "model rejects the draws"⟩
+            | some m => if obsEq m a then ⟨.pass, tags, ""⟩ else ⟨.tie, tags, "model " ++ m.dump⟩
+      | ["len", ls, rrs, rts] =>
+        match parseRat? ls, parseBool rrs, parseBool rts with
+        | some l, some rr, some rt =>
+          judgeCollapse (some (.len l)) rr rt b outcome after (some (collapseLen l rr rt b)) ("seq-len" :: tags0)
+        | _, _, _ => bad "C07.seq len"
+      | ["sup", ss, rrs] =>
+        match parseRat? ss, parseBool rrs with
+        | some x, some rr => judgeCollapse (some (.sup x)) rr false b outcome after (some (collapseSup x rr b)) ("seq-sup" :: tags0)
+        | _, _ => bad "C07.seq sup"
+      | ["depth", mns, mxs, rrs, rts] =>
+        match mns.toInt?, mxs.toInt?, parseBool rrs, parseBool rts with
+        | some mn, some mx, some rr, some rt =>
+          if fresh then
+            -- the library call on sizes that describe the tree: the post-condition of the collapse by depth
+            judgeCollapse (some (.depth mn mx)) rr rt b outcome after (collapseDepthStored stored mn mx rr rt b) ("seq-depth" :: tags0)
+          else
+            -- never indexed: the model reads the same stored sizes (error, nothing removed)
+            match T.undump after, collapseDepthStored stored mn mx rr rt b, outcome with
+            | some a, none, "err" => if obsEq a b && a.nodeNames == b.nodeNames then ⟨.pass, "err" :: "seq-depth" :: tags0, ""⟩ else ⟨.oracle, tags0, "error reported but the tree changed"⟩
+            | some a, some m, "ok" => if obsEq m a then ⟨.pass, "seq-depth" :: tags0, ""⟩ else ⟨.tie, tags0, "model " ++ m.dump⟩
+            | _, _, _ => ⟨.tie, tags0, "outcome " ++ outcome⟩
+        | _, _, _, _ => bad "C07.seq depth"
+      | _ => ⟨.pass, "seq-unjudged" :: tags0, ""⟩
+    | _, _, _, _ => if (f.getD 5 "").startsWith "panic" || (f.getD 5 "").startsWith "malformed" then ⟨.oracle, ["seq"], "outcome " ++ f.getD 5 ""⟩ else bad "C07.seq fields"
+  | _ => bad "C07.seq arity"
+
 /- ## whole commands (`C07.cmd`) -/
 
 def parseFlags (s : String) : Option CmdFlags :=
@@ -249,6 +319,7 @@ def handleCmd (f : List String) : Verdict :=
     binary again); they are judged exactly like the library cases. -/
 def handle (op : String) (f : List String) : Verdict :=
   if op == "cmd" then handleCmd f else
+  if op == "seq" then handleSeq f else
   match op.splitOn "@" with
   | [o, "cli"] => let v := handleOp o f; { v with tags := "cli" :: v.tags }
   | _ => handleOp op f
